@@ -71,5 +71,8 @@ func DirectedScenarios() []Directed {
 			adv(time.Second), {Kind: KStats}, {Kind: KList, List: &queue.MessageListRequest{}}}},
 		{Name: "expired-lease-and-retention-in-one-dequeue", Cfg: vlib.StoreCfg{RetentionMaxAge: 10 * time.Second, PruneInterval: time.Nanosecond}, Script: []Op{
 			enq("a"), deq(1, time.Second), adv(20 * time.Second), deq(1, time.Second), {Kind: KList, List: &queue.MessageListRequest{}}}},
+		{Name: "expired-lease-and-retention-in-one-dequeue-unobserved", Cfg: vlib.StoreCfg{RetentionMaxAge: 10 * time.Second, PruneInterval: time.Second}, Script: []Op{
+			enq("a"), adv(time.Second), deq(1, 5*time.Second), {Kind: KDequeue, Deq: &queue.DequeueRequest{Batch: 1, LeaseTTL: 5 * time.Second}, Forced: true, Pre: 40 * time.Second},
+			{Kind: KList, List: &queue.MessageListRequest{}}}},
 	}
 }
